@@ -90,6 +90,8 @@ def run(ctx, repo):
         'call arguments), I3 a single atomic container operation with no iterator held across it.')
     ctx.rule('I1', 'a lazily built global is bound once to a completely built value and never mutated in place')
     ctx.rule('I2', 'stores on a shared instance outside __init__ are independent of the call arguments (idempotent lazy cache)')
+    ctx.rule('I6', 'no reachable function changes a row of a shared module-level table in place (through an alias or directly), restored or not')
+    ctx.rule('I7', 'no reachable function assigns an attribute of an imported module (process-wide setting) at call time')
     ctx.rule('I3', 'a shared container is touched only by single atomic operations; no iterator/view is held across a mutation')
     entries = []
     for n in ENTRIES_INIT:
@@ -128,6 +130,39 @@ def run(ctx, repo):
                 out.append((n.target.attr, ast.BinOp(left=n.target, op=n.op, right=n.value), n))
         return out
 
+    # ---- I6 / I7 over every reachable function, whatever its receiver: rows of shared tables changed in place (even if put back
+    # later: another thread reads the table in between), and attributes of imported modules assigned at call time (a process-wide
+    # setting saved / installed / restored around a call is not re-entrant across threads)
+    from ..memo import shared_alias_mutations
+    from .c19 import module_mutables
+    done_fns = set()
+    for (rel_, q_), _rc, _rk in sorted(seen, key=lambda x: (x[0], str(x[1]), str(x[2]))):
+        if (rel_, q_) in done_fns:
+            continue
+        done_fns.add((rel_, q_))
+        fn_ = G.func_node((rel_, q_))
+        m_ = G.mods[rel_]
+        mm_ = set(module_mutables(m_))
+        for msg, node_ in shared_alias_mutations(fn_, mm_):
+            n_sites += 1
+            ctx.finding('I6', '%s::%s::row of a shared table changed in place' % (rel_, q_), rel_, node_.lineno,
+                        '%s (reached from the public entry points) %s.  Under threads another caller reads the table between the change and any '
+                        'later restore and computes with the foreign values' % (q_, msg), 'one forced pre-emption between the change and the restore')
+        imported_mods = {(a.asname or a.name).split('.')[0] for st in ast.walk(m_.tree) if isinstance(st, ast.Import) for a in st.names}
+        for n in ast.walk(fn_):
+            if isinstance(n, (ast.Assign, ast.AugAssign)):
+                for t in (n.targets if isinstance(n, ast.Assign) else [n.target]):
+                    b = t
+                    depth = 0
+                    while isinstance(b, ast.Attribute):
+                        b = b.value
+                        depth += 1
+                    if depth >= 1 and isinstance(b, ast.Name) and b.id in imported_mods and isinstance(t, ast.Attribute):
+                        n_sites += 1
+                        ctx.finding('I7', '%s::%s::assigns %s at call time' % (rel_, q_, ast.unparse(t)), rel_, n.lineno,
+                                    '%s assigns `%s`, an attribute of an imported module, while serving a call: the setting is process-wide, so a '
+                                    'save / install / restore around one call is undone or overwritten by a concurrent call (not re-entrant across '
+                                    'threads)' % (q_, ast.unparse(t)), 'two forced pre-emptions: A installs, B saves and installs, A restores, B runs')
     for node in sorted(seen, key=lambda x: (x[0], str(x[1]), str(x[2]))):
         key, rcls, rkind = node
         rel, q = key
